@@ -721,3 +721,46 @@ def rejected_edits(s, spec):
         except Exception:
             pass
     return accepted
+
+
+
+def reload_negated(s, tag="neg"):
+    """save the system, write every per-phase LOAD value of the document with a negative sign, and load it again (a hand-edited file / a file of an
+    older tool): the loaded system must treat the values as magnitudes."""
+    import os, json
+    pth = os.path.join(common.workdir(tag), "neg.json")
+    s.save(pth)
+    doc = json.load(open(pth))
+    for k_, v_ in doc["system"]["phase_conf"].items():
+        if isinstance(v_, dict):
+            doc["system"]["phase_conf"][k_] = {p_: -abs(x_) for p_, x_ in v_.items()}
+    json.dump(doc, open(pth, "w"))
+    return System.from_file(pth)
+
+
+
+def build_shared_pair(spec):
+    """two System objects built from the SAME component objects: A as build(spec) would, B after a dummy component (so that the shared objects sit at
+    other node indices in B).  Returns (A, B, objects by name)."""
+    objs = {c["n"]: make_comp(c) for c in spec["comps"]}
+    def mk(shift):
+        s = None
+        for c in spec["comps"]:
+            comp = objs[c["n"]]
+            if c["k"] == "Source":
+                if s is None:
+                    s = System(spec["name"], comp, group=c.get("g", ""), rail=c.get("r", ""))
+                    if shift:
+                        s.add_comp(c["n"], comp=C.ILoad("__shift", ii=0.001))
+                else:
+                    s.add_source(comp, group=c.get("g", ""), rail=c.get("r", ""))
+            else:
+                par = c["p"] if len(c["p"]) > 1 or c.get("plist") else c["p"][0]
+                s.add_comp(par, comp=comp, group=c.get("g", ""), rail=c.get("r", ""))
+        if spec.get("phases"):
+            s.set_sys_phases(dict(spec["phases"]))
+        for c in spec["comps"]:
+            if c.get("pc") is not None:
+                s.set_comp_phases(c["n"], copy.deepcopy(c["pc"]))
+        return s
+    return mk(False), mk(True), objs
